@@ -88,7 +88,8 @@ pub struct CaseReport {
 struct Collector {
     outcomes: BTreeMap<String, usize>,
     paths: HashSet<u64>,
-    o2_cache: HashMap<u64, Option<String>>,
+    o2_cache: HashMap<u64, (Option<String>, bool)>,
+    first_unreported_race: Option<(usize, History)>,
     o2_checked: usize,
     o2_hits: usize,
     first_invalid: Option<(usize, History, String, Vec<String>)>,
@@ -206,6 +207,7 @@ pub fn run_case(p: &Program, cfg: &Config, opts: &CaseOpts, rng: &mut Rng) -> Ca
         outcomes: BTreeMap::new(),
         paths: HashSet::new(),
         o2_cache: HashMap::new(),
+        first_unreported_race: None,
         o2_checked: 0,
         o2_hits: 0,
         first_invalid: None,
@@ -224,6 +226,7 @@ pub fn run_case(p: &Program, cfg: &Config, opts: &CaseOpts, rng: &mut Rng) -> Ca
     let p2 = p.clone();
     let do_o2 = opts.o2;
     let do_o4 = opts.o4;
+    let do_race_iter = opts.o3_must_classes.iter().any(|c| *c == FailClass::Race);
     let dump = std::env::var("VERIF_DUMP").is_ok();
     let may = MachineCfg::may();
     let may2 = may.clone();
@@ -265,10 +268,10 @@ pub fn run_case(p: &Program, cfg: &Config, opts: &CaseOpts, rng: &mut Rng) -> Ca
             }
             c.prev_path = Some(path.to_vec());
         }
-        if do_o2 {
+        if do_o2 || do_race_iter {
             let hh = hist_hash(h);
             let cached = c.o2_cache.get(&hh).cloned();
-            let verdict = match cached {
+            let (verdict, race_large) = match cached {
                 Some(v) => {
                     c.o2_hits += 1;
                     v
@@ -276,18 +279,23 @@ pub fn run_case(p: &Program, cfg: &Config, opts: &CaseOpts, rng: &mut Rng) -> Ca
                 None => {
                     c.o2_checked += 1;
                     let v = match replay_may(&p2, h, may, false) {
-                        Ok(_) => None,
-                        Err(e) => Some(e),
+                        Ok(a) => (None, a.race_large),
+                        Err(e) => (Some(e), false),
                     };
                     c.o2_cache.insert(hh, v.clone());
                     v
                 }
             };
-            if let Some(reason) = verdict {
-                c.invalid_count += 1;
-                if c.first_invalid.is_none() {
-                    c.first_invalid = Some((it, h.clone(), reason, path_text(path)));
+            if do_o2 {
+                if let Some(reason) = verdict {
+                    c.invalid_count += 1;
+                    if c.first_invalid.is_none() {
+                        c.first_invalid = Some((it, h.clone(), reason, path_text(path)));
+                    }
                 }
+            }
+            if do_race_iter && race_large && c.first_unreported_race.is_none() {
+                c.first_unreported_race = Some((it, h.clone()));
             }
         }
     });
@@ -355,6 +363,15 @@ pub fn run_case(p: &Program, cfg: &Config, opts: &CaseOpts, rng: &mut Rng) -> Ca
                 evidence: json!({}),
             });
         }
+    }
+
+    if let Some((it, h)) = &c.first_unreported_race {
+        rep.violations.push(Violation {
+            kind: "missed_report".into(),
+            detail: format!("iteration {} performs two conflicting accesses that are unordered even by the largest happens-before (all envelope edges included), but loom did not report a data race in it", it),
+            known: None,
+            evidence: json!({"iteration": it, "history": history_text(h), "history_events": h}),
+        });
     }
 
     // ---- reference walks
